@@ -118,6 +118,11 @@ def layers(prop, tier):
                 jobs.append({'prop': prop, 'gen': {'gen': 'struniv', 'alpha': 'abc', 'maxlen': 3,
                                                    'sep': sep},
                              'meas': meas, 't': t, 'op': '>=', 'tok': spec, 'pres': pres})
+    for meas in SET_MEASURES + ('OVERLAP',):      # non-ASCII token spellings and str columns, whatever the seed
+        for t in ((1, 3) if meas == 'OVERLAP' else (0.25, 0.5, 0.8)):
+            for p_ in (2, 5):
+                jobs.append({'prop': prop, 'gen': {'gen': 'univ', 'K': 5}, 'meas': meas, 't': t, 'op': '>=',
+                             'pres': p_, 'n_jobs': 2})
     Ls.append(Layer('tokenizers', 'checks.setjoin:w_tables', jobs,
                     'complete string universes STR({a,b},l) under q-gram tokenizers (q, padding, '
                     'set/bag) and STR({a,b,c},3) with delimiter / alphabetic / alphanumeric '
